@@ -11,7 +11,7 @@ complete imported repository (parents by mark, committer, authors, timestamp, ti
 every revision, tags, branch tip, revno) -- or the exception class that aborts the import.
 
 The oracle is the property itself: the imported repository must be isomorphic to the exported history.
-It fails on the unchanged code for eleven classes of inputs (see notes/C44.md); each is a known-finding
+It fails on the unchanged code for twelve classes of inputs (see notes/C44.md); each is a known-finding
 candidate recognised by a predicate on the INPUT (finding_matches), never by the failure alone.
 """
 import email.utils
@@ -86,6 +86,9 @@ def setup(scratch):
 
 def teardown():
     _state["dir"] = None
+    own = _state.pop("own", None)
+    if own:
+        shutil.rmtree(own, ignore_errors=True)
 
 
 def _workdir():
@@ -94,6 +97,8 @@ def _workdir():
         base = tempfile.mkdtemp(prefix="verif-c44-")
         _state["dir"] = base
         _state["own"] = base
+        import atexit
+        atexit.register(shutil.rmtree, base, True)
     _state["n"] += 1
     return os.path.join(base, "c%d-%d" % (os.getpid(), _state["n"]))
 
@@ -177,8 +182,8 @@ def _restrict_rich(case):
 
 def cases(rng, tier):
     quick = tier == "quick"
-    n_mixed = 45 if quick else 700
-    n_focus = 2 if quick else 30
+    n_mixed = 45 if quick else 600
+    n_focus = 2 if quick else 25
     n_rich = 10 if quick else 150
     for _ in range(n_mixed):
         c = G.gen_case(rng, plain=1 if rng.random() < 0.85 else 0)
@@ -498,7 +503,7 @@ def nontrivial(case, obs):
 
 def distribution(inputs, observations):
     out = {"cases": len(inputs), "plain": 0, "rich": 0, "import_ok": 0, "import_error": {}, "roundtrip_ok": 0,
-           "classes": {}, "commits": 0, "R": 0, "D": 0, "M": 0, "merges": 0, "guard_true_commits_plain": 0}
+           "classes": {}, "commits": 0, "R": 0, "D": 0, "M": 0, "merges": 0}
     for c, o in zip(inputs, observations):
         out["plain" if c["plain"] else "rich"] += 1
         if not isinstance(o, list):
